@@ -35,9 +35,9 @@ type realRun struct {
 	closed bool
 }
 
-func startReal(plugin string, selectors []string) (*realRun, error) {
+func startReal(plugin string, selectors []string, capacity int) (*realRun, error) {
 	settings := &pipeline.Settings{
-		Capacity:            256,
+		Capacity:            capacity, // small pools recycle event objects (and their insane-json roots) quickly
 		MaintenanceInterval: time.Second * 5,
 		EventTimeout:        pipeline.DefaultEventTimeout,
 		Antispam:            pipeline.AntispamSettings{Threshold: pipeline.DefaultAntispamThreshold},
